@@ -103,11 +103,11 @@ PROPS = {
         ],
     },
     "C06": {
-        "gen": ["Numeric", "Adapt"],
-        "thm_module": "NutsModel.Thm.C06Adapt",
+        "gen": ["Numeric", "Adapt", "Collector"],
+        "thm_module": "NutsModel.Thm.C09Collector",
         "namespace": "NutsModel.Sched",
         "theorems": [
-            "adapt_refines_schedStep",
+            "adapt_refines_schedStep", "new_eq_schedNew", "new_start_values",
             "step_after_warmup", "step_final_window", "step_mass_phase", "transformation_frozen",
             "stepsize_frozen_after_warmup", "last_uses_average", "tuning_step", "tuning_flag_exact",
             "any_num_tune_constructs", "nextWindow_grows",
@@ -128,17 +128,17 @@ PROPS = {
                  "with Model/FlowSchedule.lean (which draws re-fit the transformation); same direct oracle. "
                  "distinct_nontrivial = chains with >= 2 window switches + flow chains with at least one re-fit."),
         "trusted": [
-            "C06: GlobalStrategy::adapt is TRANSLATED from src/adapt_strategy.rs on every run (Gen/Adapt.lean); its two sub-strategies are interface objects (Model/AdaptIface.lean: estimator contents as sample-id lists, adapt() changes iff the foreground holds >= 3 samples; step-size strategy = log of the calls it receives) -- the same abstraction as the hand model; theorem adapt_refines_schedStep proves the generated function equal to the hand model schedStep (state, parameters, order and arguments of the step-size calls) for every state, draw number and oracle, so the schedule theorems hold for the code as translated",
+            "C06: GlobalStrategy::adapt is TRANSLATED from src/adapt_strategy.rs on every run (Gen/Adapt.lean); its two sub-strategies are interface objects (Model/AdaptIface.lean: estimator contents as sample-id lists, adapt() changes iff the foreground holds >= 3 samples; step-size strategy = log of the calls it receives) -- the same abstraction as the hand model; theorem adapt_refines_schedStep proves the generated function equal to the hand model schedStep (state, parameters, order and arguments of the step-size calls) for every state, draw number and oracle, so the schedule theorems hold for the code as translated; likewise GlobalStrategy::new (asserts = the call panics; theorems new_eq_schedNew, new_start_values) and DrawGradCollector::register_draw (which draws the estimators use; theorem register_draw_is_good: equal to the hand model isGoodDraw)",
             "C06: Model/Schedule.lean (GlobalStrategy::adapt, single-assignment transcription) and Model/FlowSchedule.lean (ExternalTransformAdaptation::adapt) are hand-written and tied by per-draw correspondence: hook counters for the former, tuning flags and transformation index (public statistics) for the latter",
             "C06: that Progress is built after adapt in both chains is checked on real runs (tuning-count oracle), not a theorem",
         ],
     },
     "C09": {
-        "gen": ["Numeric", "Adapt"],
-        "thm_module": "NutsModel.Thm.C06Adapt",
+        "gen": ["Numeric", "Adapt", "Collector"],
+        "thm_module": "NutsModel.Thm.C09Collector",
         "namespace": "NutsModel.Sched",
         "theorems": [
-            "adapt_refines_schedStep",
+            "adapt_refines_schedStep", "new_eq_schedNew", "new_start_values", "register_draw_is_good", "is_good_iff",
             "step_mass_phase", "switch_condition", "late_iff", "final_window_symmetric", "rejected_not_counted",
             "step_mass_reinit", "reinit_iff", "window_monotone", "nextWindow_grows", "fresh_step", "no_stale_draws",
         ],
@@ -149,7 +149,7 @@ PROPS = {
                  "early/late choice must reproduce the observed dual-averaging / Adam state bit-exactly). "
                  "distinct_nontrivial = chains with >= 2 window switches."),
         "trusted": [
-            "C09: GlobalStrategy::adapt is TRANSLATED from src/adapt_strategy.rs on every run (Gen/Adapt.lean); its two sub-strategies are interface objects (Model/AdaptIface.lean: estimator contents as sample-id lists, adapt() changes iff the foreground holds >= 3 samples; step-size strategy = log of the calls it receives) -- the same abstraction as the hand model; theorem adapt_refines_schedStep proves the generated function equal to the hand model schedStep (state, parameters, order and arguments of the step-size calls) for every state, draw number and oracle, so the schedule theorems hold for the code as translated",
+            "C09: GlobalStrategy::adapt is TRANSLATED from src/adapt_strategy.rs on every run (Gen/Adapt.lean); its two sub-strategies are interface objects (Model/AdaptIface.lean: estimator contents as sample-id lists, adapt() changes iff the foreground holds >= 3 samples; step-size strategy = log of the calls it receives) -- the same abstraction as the hand model; theorem adapt_refines_schedStep proves the generated function equal to the hand model schedStep (state, parameters, order and arguments of the step-size calls) for every state, draw number and oracle, so the schedule theorems hold for the code as translated; likewise GlobalStrategy::new (asserts = the call panics; theorems new_eq_schedNew, new_start_values) and DrawGradCollector::register_draw (which draws the estimators use; theorem register_draw_is_good: equal to the hand model isGoodDraw)",
             "C09: estimator contents are modelled as lists of sample ids (which draws are inside), not their numeric values; that both estimators (two running-variance pairs / deque with background_split) realise exactly these contents is checked through their counts on every draw",
         ],
     },
